@@ -179,6 +179,9 @@ func matrixKinds() []kindDef {
 		}})
 	}
 	ks = append(ks,
+		kindDef{"allOf-inline-with-array-of-inline-object", func(d *Doc) *Schema {
+			return &Schema{AllOf: []*Schema{{Type: "object", Properties: map[string]*Schema{"rows": {Type: "array", Items: objAB()}, "zzz": {Type: "string"}}}}}
+		}},
 		kindDef{"allOf-inline", func(d *Doc) *Schema { return &Schema{AllOf: []*Schema{objAB()}} }},
 		kindDef{"allOf-ref", func(d *Doc) *Schema { return &Schema{AllOf: []*Schema{addComp(d, "BaseObj", objAB())}} }},
 		kindDef{"oneOf-refs", func(d *Doc) *Schema {
@@ -448,6 +451,14 @@ var NamePositions = []struct {
 	}},
 	{"property-optional", func(d *Doc, name string) {
 		addComp(d, "Holder", &Schema{Type: "object", Properties: map[string]*Schema{name: {Type: "integer"}}})
+		opAt(d, "/x", "GET")
+	}},
+	{"property-array-of-inline-object", func(d *Doc, name string) {
+		addComp(d, "Holder", &Schema{Type: "object", Properties: map[string]*Schema{name: {Type: "array", Items: objAB()}}})
+		opAt(d, "/x", "GET")
+	}},
+	{"property-inline-object", func(d *Doc, name string) {
+		addComp(d, "Holder", &Schema{Type: "object", Properties: map[string]*Schema{name: objAB()}})
 		opAt(d, "/x", "GET")
 	}},
 	{"query", func(d *Doc, name string) {
